@@ -76,12 +76,22 @@ def check_pow(rep, f):
 
 # ---------------------------------------------------------------- R15 identities
 
+class _Fold(norm.Normalizer):
+    """only folds field-of-aggregate projections (so that inlined pair plumbing disappears)"""
+    def _node(self, a):
+        if a[0] == "field":
+            x, i = a[1], a[2]
+            if tag(x) == "agg" and i < len(x[2]) and x[2][i] is not None:
+                return x[2][i]
+        return mk(*a)
+N0 = _Fold("E")
+
 def prove(rep, f, name, key, lhs, rhs, eft, z_only, witness):
     """lhs/rhs: TwoFloat-valued terms.  E-proof => bit-for-bit; Z-proof => modulo the sign of
     zero words (then the literal bit-for-bit reading is the genuine finding K1 when z_only)."""
     for mode in ("E", "Z"):
         N = norm.Normalizer(mode, eft)
-        a = H.pair_of(N.norm(lhs)); b = H.pair_of(N.norm(rhs))
+        a = H.pair_of(N.norm(norm.recognise_eft(N0.norm(lhs)))); b = H.pair_of(N.norm(norm.recognise_eft(N0.norm(rhs))))
         if a[0] is b[0] and a[1] is b[1]:
             if mode == "E":
                 rep.ok("R15", name, detail="identical normal forms", algebra="E", sample={"hi": a[0], "lo": a[1]})
@@ -98,12 +108,10 @@ def prove(rep, f, name, key, lhs, rhs, eft, z_only, witness):
     rep.fail("R15", name, key + ":structural", "%s does not hold: %s" % (name, H.describe_diff(d)), {"lhs": mk("pair", *a), "rhs": mk("pair", *b)})
 
 def check_identities(rep, f):
-    eft = eft_table(f)
-    keep = tuple(eft.keys())
-    rep.analysed["eft_primitives"] = dict(eft)
-    if set(eft.values()) != {"ts", "tsn", "tp"}:
-        rep.fail("R15", "EFT primitives", "anchor-lost:eft", "2Sum / 2Sub / 2Prod primitives not identified by conformance: %r (reason=anchor-lost)" % (eft,))
-        return
+    # every crate function is inlined; error-free transformations are recognised structurally in the
+    # IEEE-operation graph (norm.recognise_eft), so the proofs do not depend on function boundaries
+    eft = {}
+    keep = ()
     rt, rf = "&" + TF, "&f64"
     V = lambda ident: leaf_value(f, ident, keep, rep, "R15")
     add_tt = V(H.op_ident("Add", rt, rt, "add")); sub_tt = V(H.op_ident("Sub", rt, rt, "sub")); mul_tt = V(H.op_ident("Mul", rt, rt, "mul"))
